@@ -166,6 +166,7 @@ def run(ctx):
     from . import common_state as ST
     ST.rule_one_shot_iterators(ctx, "R5")
     ST.rule_cache_keys(ctx, "R6")
+    ST.rule_memo_keys(ctx, "R7")
 
 
 def _subst(t, old, new):
